@@ -279,6 +279,51 @@ def evaluate_hello_bits(spec):
     return r
 
 
+def evaluate_key_subsets(spec):
+    """EVERY non-empty subset of the victim's key-log lines removed (<= 5 lines: <= 31 subsets), and every subset randomised"""
+    b, o0, f0, seqs = _baseline(spec)
+    if f0 is not None:
+        return {"sig": "baseline: " + f0, "detail": (o0.run.exc or "")[-300:], "nontrivial": False, "evals": 1}
+    conn = b.conns[0]
+    nmine = sum(1 for ln in b.keylog if conn.cr.hex() in ln)
+    rnd = random.Random(spec.get("fseed", 0))
+    evals, first = 1, None
+    for kind in ("keys_remove", "keys_random"):
+        for mask in range(1, 1 << nmine):
+            fault = {"kind": kind, "mask": mask}
+            pkts, keylog, note = apply_fault(b, fault, rnd)
+            o = run_variant(b, pkts, keylog, "fault")
+            evals += 1
+            sig, detail = judge(spec, b, seqs, o, fault, note)
+            if sig and first is None:
+                first = (sig, f"{detail} | {note}")
+    r = {"sig": None, "detail": "", "nontrivial": bool(_victim_exports(spec, b, o0)) and any(v for v in seqs.values()),
+         "labels": ["all-key-subsets", "victim:" + spec["conns"][0]["kind"]], "evals": evals, "key": engine.spec_hash(spec)}
+    if first:
+        r["sig"], r["detail"] = first
+    return r
+
+
+def key_subset_specs(tier):
+    out = []
+    data = lambda d, n: {"op": "data", "d": d, "pk": [{"fr": [["stream", 0, n, None, False, True, None]], "gap": 0, "pnl": 0}]}
+    victims = []
+    for i, code in enumerate([0x1301, 0x1302, 0x1303] if tier == "quick" else [0x1301, 0x1302, 0x1303, 0x1304, 0x1305]):
+        victims.append({"kind": "tls", "seed": 5100 + i, "version": tlsref.TLS13, "suite": code, "history": [[0, 30, 0], [1, 60, 0], [0, 5, 0]], "cert_len": 40,
+                        "hs_secrets": True, "tcp": {"mode": "rec", "syn": False}})
+    for i, code in enumerate([0x1301, 0x1303] if tier == "quick" else [0x1301, 0x1302, 0x1303, 0x1304]):
+        victims.append({"kind": "quic", "seed": 5200 + i, "suite": code, "early": i % 2, "steps": [data(0, 20), data(1, 30), data(0, 21), data(1, 31)]})
+    victims.append({"kind": "tls", "seed": 5300, "version": tlsref.TLS12, "suite": 0xC02F, "history": [[0, 30, 0], [1, 60, 0]], "cert_len": 40,
+                    "tcp": {"mode": "rec", "syn": False}})
+    for i, v in enumerate(victims):
+        v["ep"] = scenario.default_ep(0)
+        by1 = {"kind": "tls", "seed": 5400 + i, "version": tlsref.TLS13, "suite": 0x1301, "history": [[0, 10, 0], [1, 20, 0]], "cert_len": 40,
+               "ep": scenario.default_ep(1), "tcp": {"mode": "rec", "syn": False}}
+        by2 = {"kind": "quic", "seed": 5500 + i, "suite": 0x1301, "steps": [data(0, 12), data(1, 13)], "ep": scenario.default_ep(2)}
+        out.append({"conns": [v, by1, by2], "order": [0, 1, 2, 0], "tseed": 7, "fseed": i})
+    return out
+
+
 def hello_specs(tier):
     out = []
     combos = [(0x002F, tlsref.TLS10), (0x009C, tlsref.TLS12), (0x1301, tlsref.TLS13), (0x000A, tlsref.SSL30)]
@@ -492,6 +537,7 @@ def stages(tier):
     return [
         Stage("all-positions", evaluate_positions, strategy=lambda t: base_scenario(small=True), examples=32 if quick else 600, shrink=False),
         Stage("hello-bitflips", evaluate_hello_bits, specs=hello_specs(tier), chunksize=1),
+        Stage("all-key-subsets", evaluate_key_subsets, specs=key_subset_specs(tier), chunksize=1),
         Stage("single-faults", evaluate_single, strategy=lambda t: single_fault_scenario(), examples=500 if quick else 30000),
         Stage("udp-datagrams", evaluate_datagrams, strategy=datagram_strategy, examples=2000 if quick else 100000),
         fuzz_stage("atheris-quic-datagrams", 8000 if quick else 6000000),
@@ -500,6 +546,7 @@ def stages(tier):
 
 RULE = ("scenario = 1 victim (TLS any version/suite or QUIC) + 1-3 healthy bystanders; stage all-positions ENUMERATES, for each generated "
         "scenario, every fault in {delete, cut before, cut after, flip bit, overwrite, shorten} at EVERY packet of the victim; stage "
+        "all-key-subsets removes / randomises EVERY non-empty subset of the key-log lines of TLS 1.3, TLS 1.2 and QUIC victims; stage "
         "single-faults draws one fault from those plus {remove any subset of the victim's key-log lines, random secrets, unknown suite id in "
         "ServerHello, plain HTTP on a watched port, arbitrary/QUIC-shaped UDP payloads}; oracle: exit 0 without traceback, every bystander "
         "flow's exported packets (headers, payloads, timestamps) identical to the fault-free run, and for information-removing faults the "
